@@ -24,6 +24,14 @@ def cases(tier, rng):
         vs = list(values(GRID))
         for _ in range(300):
             yield ('(uval %s %s)' % (rng.choice(vs), q(rng.choice(GRID))), 'grid-sample')
+    # tiny magnitudes (2^-30 is below f32::EPSILON, 2^-100 has a square that underflows): non-zero is non-zero. Thresholds
+    # 0 and 1/2 only - next to a tiny threshold the squares of is_actuated underflow, which the rational model does not do
+    for tiny in (F(1, 2 ** 30), F(1, 2 ** 100), -F(1, 2 ** 100), F(1, 2 ** 120)):
+        for d in (1, 2, 3):
+            for pos in range(d):
+                comps = [tiny if i == pos else F(0) for i in range(d)]
+                for t in (F(0), F(1, 2)):
+                    yield ('(uval (V%d %s) %s)' % (d, ' '.join(q(c) for c in comps), q(t)), 'tiny')
     # random dyadic values on a finer grid, thresholds near the magnitude
     n = 2000 if tier == 'thorough' else 300
     for _ in range(n):
@@ -46,7 +54,7 @@ def nontrivial(case, out):
 STAGES = [dict(name='value', mode='unit', coq='Check.C20c', cases=cases, nontrivial=nontrivial,
                exhaustive={'thorough': False, 'quick': False},
                rule='every value with components in the grid {-2,-1,-1/2,0,1/2,1,2} (thorough: all 401 values x 7 thresholds; '
-                    'quick: 4-point grid plus a sample) and random dyadic values with thresholds on/around the magnitude; '
+                    'quick: 4-point grid plus a sample) and random dyadic values with thresholds on/around the magnitude; values with one tiny non-zero component (2^-30, +-2^-100, 2^-120); '
                     'each is converted to all four dimensions and back by the real ActionValue API; non-trivial = not made of 0/1 only; '
                     'distinct = distinct case text')]
 
